@@ -48,6 +48,12 @@ pub fn new_srv(r: &mut Rng, max_clients: usize, n_addrs: usize, v6: bool) -> Srv
 }
 
 pub fn client_addr(r: &mut Rng, n: u64) -> SocketAddr {
+    if r.chance(1, 8) {
+        // an IPv4-mapped IPv6 source (what a dual-stack socket reports for an IPv4 peer): a different SocketAddr from
+        // the plain IPv4 one, answers go back to exactly this form
+        let v4 = std::net::Ipv4Addr::new(10, 1 + (n / 200) as u8, (n % 200) as u8, 1);
+        return SocketAddr::new(std::net::IpAddr::V6(v4.to_ipv6_mapped()), 20_000 + (n % 20_000) as u16);
+    }
     if r.chance(1, 4) {
         nsim::addr6(0x1000 + n as u16, 20_000 + (n % 20_000) as u16)
     } else {
